@@ -53,12 +53,26 @@ struct IOP {
 };
 
 struct PolyOp {
-    const PolDom& P; std::string op; const Args& x;
-    PolyOp(const PolDom& p, const std::string& o, const Args& e) : P(p), op(o), x(e) {}
+    const PolDom& P; std::string op; const Args& x; int calls;
+    PolyOp(const PolDom& p, const std::string& o, const Args& e) : P(p), op(o), x(e), calls(0) {}
     bool operator()(std::vector<PolDom::Element*>& o, std::string& ret) {
 #define A(k) (*o[k])
         long s = x.empty() ? 0 : atol(x[0].c_str());
-        Base::Element c; g_base->init(c, s);
+        Base::Element cl; g_base->init(cl, s);
+        const Base::Element* cp = &cl;
+        // "<scalar form>@": SUB-OBJECT aliasing -- the scalar operand is coefficient i of the object at position k (extra: k i).
+        // First call (distinct objects): a separate copy of that coefficient; second call (aliased run): a reference INTO the object.
+        std::string op = this->op;
+        if (!op.empty() && op[op.size() - 1] == '@') {
+            op.erase(op.size() - 1);
+            size_t k = (size_t) s, i = x.size() > 1 ? (size_t) atol(x[1].c_str()) : 0;
+            if (k < o.size() && o[k]->size() > 0) {
+                if (i >= o[k]->size()) i = o[k]->size() - 1;
+                if (calls == 0) cl = (*o[k])[i]; else cp = &(*o[k])[i];
+            }
+        }
+        ++calls;
+#define c (*cp)
         if (op == "add") P.add(A(0), A(1), A(2));
         else if (op == "sub") P.sub(A(0), A(1), A(2));
         else if (op == "mul") P.mul(A(0), A(1), A(2));
@@ -119,6 +133,8 @@ struct PolyOp {
         else if (op == "mulin.s") P.mulin(A(0), c);
         else if (op == "divin.s") P.divin(A(0), c);
         else if (op == "modin.s") P.modin(A(0), c);
+        else if (op == "assign.s") P.assign(A(0), c);
+        else if (op == "assign.ds") P.assign(A(0), Degree(x.size() > 2 ? atol(x[2].c_str()) : 2), c);
         else if (op == "add.s") P.add(A(0), A(1), c);
         else if (op == "sub.s") P.sub(A(0), A(1), c);
         else if (op == "mul.s") P.mul(A(0), A(1), c);
@@ -129,6 +145,7 @@ struct PolyOp {
         else if (op == "maxpyin.s") P.maxpyin(A(0), c, A(1));
         else if (op == "axmyin.s") P.axmyin(A(0), c, A(1));
         else return false;
+#undef c
 #undef A
         return true;
     }
